@@ -34,6 +34,8 @@ func init() {
 	unique["networks.*.labels"] = keyValueIndexer
 	unique["networks.*.ipam.options"] = keyValueIndexer
 	unique["volumes.*.labels"] = keyValueIndexer
+	unique["secrets.*.labels"] = keyValueIndexer
+	unique["configs.*.labels"] = keyValueIndexer
 	unique["services.*.annotations"] = keyValueIndexer
 	unique["services.*.build.args"] = keyValueIndexer
 	unique["services.*.build.additional_contexts"] = keyValueIndexer
